@@ -1,2 +1,75 @@
-(* C12 - theorems follow in this commit series *)
-From TW Require Import Bytes.
+(* C12 - Go data handed to a render is visible with the same structure.
+   goval is the abstract Go value (the harness builds the real one from the same description by
+   reflection: all integer widths, float32/64, pointers, nil pointers, slices, string-keyed maps,
+   run-time struct types with exported and unexported fields, unsupported kinds); to_object mirrors
+   object.NativeToObject, env_from_map mirrors EnvFromMap, obj_index mirrors evalObjectIndexExp.
+   Caller-data immutability is immediate in the model; for the code the harness deep-compares the
+   data before and after every render. *)
+From Coq Require Import String.
+From TW Require Import Bytes Floats Values Ast Builtins Eval DataBinding.
+Open Scope N_scope.
+
+(* an unsupported kind ANYWHERE (slice element, map value, exported field, behind a pointer)
+   makes the conversion fail; without one it succeeds *)
+Theorem C12_converts_iff_supported g : to_object g <> None <-> supported g = true.
+Proof. exact (to_object_some_iff_supported g). Qed.
+Print Assumptions C12_converts_iff_supported.
+
+Theorem C12_scalars_keep_their_value :
+  to_object GNil = Some VNil /\ (forall b, to_object (GBool b) = Some (VBool b)) /\
+  (forall z, to_object (GInt z) = Some (VInt (wrap64 z))) /\
+  (forall f, to_object (GFloat f) = Some (VFloat f)) /\
+  (forall s, to_object (GStr s) = Some (VStr s)).
+Proof. exact scalars_keep_their_value. Qed.
+Print Assumptions C12_scalars_keep_their_value.
+
+Theorem C12_pointers_are_transparent v : to_object (GPtr v) = to_object v /\ to_object GNilPtr = Some VNil.
+Proof. exact (pointers_are_transparent v). Qed.
+Print Assumptions C12_pointers_are_transparent.
+
+Theorem C12_slice_elements_by_position l vs :
+  to_object (GSlice l) = Some (VArr vs) ->
+  List.length vs = List.length l /\
+  forall i x, nth_error l i = Some x -> exists v, nth_error vs i = Some v /\ to_object x = Some v.
+Proof. exact (slice_elements l vs). Qed.
+Print Assumptions C12_slice_elements_by_position.
+
+Theorem C12_map_entries_by_key m o :
+  NoDup (map fst m) -> to_object (GMap m) = Some (VObj o) ->
+  forall k, alookup k o = match alookup k m with Some g => to_object g | None => None end.
+Proof. exact (map_entries m o). Qed.
+Print Assumptions C12_map_entries_by_key.
+
+Theorem C12_struct_fields_by_name fs o :
+  NoDup (field_names fs) -> to_object (GStruct fs) = Some (VObj o) ->
+  forall n, alookup n o = match field_lookup n fs with Some (true, v) => to_object v | _ => None end.
+Proof. exact (struct_fields fs o). Qed.
+Print Assumptions C12_struct_fields_by_name.
+
+Theorem C12_field_by_lowercase_first_letter ln fs o c r v :
+  NoDup (field_names fs) -> to_object (GStruct fs) = Some (VObj o) ->
+  (65 <=? c) && (c <=? 90) = true ->
+  field_lookup (c :: r) fs = Some (true, v) -> field_lookup ((c + 32) :: r) fs = None ->
+  obj_index ln o ((c + 32) :: r) = match to_object v with Some w => Ok w | None => obj_index ln o ((c + 32) :: r) end.
+Proof. exact (field_by_lowercase_name ln fs o c r v). Qed.
+Print Assumptions C12_field_by_lowercase_first_letter.
+
+Theorem C12_unexported_fields_unreachable ln fs o n v :
+  NoDup (field_names fs) -> to_object (GStruct fs) = Some (VObj o) ->
+  field_lookup n fs = Some (false, v) ->
+  field_lookup (upper_first n) fs = None \/ upper_first n = n ->
+  exists msg, obj_index ln o n = Fail ln msg.
+Proof. exact (unexported_field_unreachable ln fs o n v). Qed.
+Print Assumptions C12_unexported_fields_unreachable.
+
+Theorem C12_data_entry_is_bound k g v :
+  bytes_eqb k str_loop = false -> to_object g = Some v -> env_from_map [(k, g)] = EnvOk [[(k, v)]].
+Proof. exact (data_entry_visible k g v). Qed.
+Print Assumptions C12_data_entry_is_bound.
+
+Example C12_example :
+  to_object (GStruct [(bs "Name", true, GStr (bs "bob")); (bs "age", false, GInt 3);
+                      (bs "Tags", true, GSlice [GPtr (GInt 7); GNilPtr])]) =
+  Some (VObj [(bs "Name", VStr (bs "bob")); (bs "Tags", VArr [VInt 7; VNil])]) /\
+  supported (GMap [(bs "k", GSlice [GStruct [(bs "F", true, GOther)]])]) = false.
+Proof. exact binding_example. Qed.
